@@ -27,8 +27,9 @@ What is modelled (the code that exists, libcalico-go/lib/ipam):
   `h` creates a token; `decrementHandle(h,b,n)` consumes one.  A crashed thread
   simply never spends its tokens.  (After the repair 9cd85f1 the increment is by
   the number of addresses actually taken, so the allocating write must take
-  exactly the token's count.)  One path of the code decrements WITHOUT a release
-  of its own (`Payload.staleDel`); `St.stale` counts its occurrences.
+  exactly the token's count; after repair e889066 `releaseByHandle` no longer
+  decrements for a block somebody else deleted, so every decrement is backed by
+  a token.)
 
 A state transition is `step s ev`: it is `none` when the event is not an
 instance of the protocol (inadmissible), otherwise the successor state.  Since
@@ -81,8 +82,6 @@ structure St where
   aff : Nat → Nat → Option (Nat × AffSt)
   creds : List Cred
   got : Nat → List (Nat × Nat)
-  /-- number of "stale delete" grants so far (see `Payload.staleDel`) -/
-  stale : Nat := 0
 
 def St.init (rev0 nb : Nat) : St :=
   { rev := rev0, nb := nb, blk := fun _ => none, hdl := fun _ => none, aff := fun _ _ => none,
@@ -174,6 +173,13 @@ inductive BOp where
   | clearAff
   | bump
 deriving Repr
+
+/-- The handle an allocating block operation allocates for — the caller's handle, carried
+by the call (0 for operations that allocate nothing). -/
+def opHandle : BOp → Nat
+  | .assign h _ _ => h
+  | .assignIP h _ => h
+  | _ => 0
 
 /-- Handles (other than 0) occurring live in a slot list, for debit tokens. -/
 def liveHandles : List Slot → List Nat
@@ -276,10 +282,6 @@ inductive Payload where
   | affSt (st : AffSt)
   | affDel
   | noev
-  /-- `releaseByHandle`: the compare-and-delete of the block answered NotFound (someone
-  else deleted it) and the code carries on to `decrementHandle(h, b, n)` with the count
-  `n` it computed from the block it had read: a token NOT backed by any release. -/
-  | staleDel (h n : Nat)
 deriving Repr
 
 structure Call where
@@ -433,11 +435,6 @@ def step (s : St) : Ev → Option St
   | .call c =>
     match casOutcome (s.curRev c.key) c.verb c.rev c.fault with
     | .ok => if c.verb.isWrite then (if ownOk s c then applyWrite s c else none) else some s
-    | .notfound =>
-      match c.key, c.verb, c.pl with
-      | .blk b, .delete, .staleDel h n =>
-        some { s with creds := { t := c.t, h := h, b := b, n := n } :: s.creds, stale := s.stale + 1 }
-      | _, _, _ => some s
     | _ => some s
 
 def run (s : St) : List Ev → Option St
